@@ -86,7 +86,9 @@ pub fn select(profile: &str, seed: u64, count: usize, max_states: usize) -> (Vec
             continue;
         }
         let Some(g) = a.graph else { continue };
-        if g.states.len() > max_states || g.leaves.len() != def.pats.len() {
+        // the size limit bounds compile time of the random part; curated definitions are always kept
+        let is_curated = i <= curated.len();
+        if (g.states.len() > max_states && !is_curated) || g.leaves.len() != def.pats.len() {
             continue;
         }
         if analyze::build_reference(&def).is_err() {
